@@ -618,13 +618,16 @@ func valueFor(t *rapid.T, l string, vp svc.ValuePredicate, want bool, size int) 
 // It returns nil, "" when the ordinary one-word value should be used.
 func dynUintValue(t *rapid.T, l string, vp svc.ValuePredicate, want bool, aimed []byte) ([]byte, string) {
 	lowSatisfies := func(low *big.Int) bool { return refPredicate(vp, word(low)) }
-	switch rapid.IntRange(0, 7).Draw(t, l+"dynShape") {
-	case 0, 1, 6, 7:
-		// the full number is >= 2^256: it satisfies Gt/Gte of any one-word argument and nothing else
-		fullSatisfies := vp.Op == svc.UintGt || vp.Op == svc.UintGte
-		if fullSatisfies != want {
-			return nil, ""
-		}
+	// the full number of the wide shape is >= 2^256: it satisfies Gt/Gte of any one-word argument and nothing else
+	fullSatisfies := vp.Op == svc.UintGt || vp.Op == svc.UintGte
+	shape := rapid.IntRange(0, 5).Draw(t, l+"dynShape")
+	if fullSatisfies == want && shape >= 4 {
+		shape = 0
+	} else if fullSatisfies != want && shape < 2 {
+		shape = 2 + shape
+	}
+	switch shape {
+	case 0, 1:
 		// low bits deciding the other way
 		arg := vp.IntArgs[0]
 		var low *big.Int
@@ -760,7 +763,7 @@ func genLogForInfo(t *rapid.T, l string, d *svc.EventTriggerDefinition, want boo
 				dynUint = append(dynUint, i)
 			}
 		}
-		if len(dynUint) > 0 && rapid.Bool().Draw(t, l+"missDynUint") {
+		if len(dynUint) > 0 && rapid.IntRange(0, 3).Draw(t, l+"missDynUint") > 0 {
 			// near miss on a dynamic integer value (other widths than one word are aimed at it)
 			miss = rapid.SampledFrom(dynUint).Draw(t, l+"missDynIdx")
 		} else if len(nonFilter) > 0 && rapid.IntRange(0, 3).Draw(t, l+"missNonFilter") > 0 {
